@@ -2,14 +2,28 @@
 
 package bucketteer
 
-// verifC13Header: legacy header produced by the real createHeader of deprecated/bucketteer.
+import "encoding/binary"
+
+// verifC13Header: legacy (version 1) header as the legacy writer lays it out: u32 size, magic, u64
+// version, u64 number of metadata pairs, (borsh string key, borsh string value) pairs, u64 number
+// of prefixes, (prefix, u64 offset) pairs sorted by prefix.
 func verifC13Header(offA, offB uint64) []byte {
-	m := map[[2]byte]uint64{verifC13PrefixA: offA, verifC13PrefixB: offB}
-	draft, err := createHeader(_Magic, Version, 0, map[string]string{"epoch": "7"}, m)
-	verifAssert(err == nil, "C13.bucketteer.dep: createHeader failed")
-	hdr, err := createHeader(_Magic, Version, uint32(len(draft)-4), map[string]string{"epoch": "7"}, m)
-	verifAssert(err == nil, "C13.bucketteer.dep: createHeader failed")
-	return hdr
+	str := func(b []byte, s string) []byte {
+		b = binary.LittleEndian.AppendUint32(b, uint32(len(s)))
+		return append(b, s...)
+	}
+	mg := Magic()
+	var body []byte
+	body = append(body, mg[:]...)
+	body = binary.LittleEndian.AppendUint64(body, Version)
+	body = binary.LittleEndian.AppendUint64(body, 1)
+	body = str(str(body, "epoch"), "7")
+	body = binary.LittleEndian.AppendUint64(body, 2)
+	body = append(body, verifC13PrefixA[:]...) // 0x0100 sorts before 0xffff
+	body = binary.LittleEndian.AppendUint64(body, offA)
+	body = append(body, verifC13PrefixB[:]...)
+	body = binary.LittleEndian.AppendUint64(body, offB)
+	return append(binary.LittleEndian.AppendUint32(nil, uint32(len(body))), body...)
 }
 
 // the legacy readHeader drops the metadata (returns a nil map): nothing to compare
